@@ -3,17 +3,21 @@
 Pipeline (every decision is TLC's; Python moves data):
   A  TLC model-checks the laws of spec/math/LinAlgebra.tla (LinAlgebraMC) and, in parallel, emits the cases (LinAlgebraGen,
      one run per group); the driver harness/drivers/linalg is built (twice: the probe build instantiates
-     AffineSpaceT::rotate(point, quaternion), which the unmodified library cannot compile).
+     AffineSpaceT::rotate(point, quaternion), which the library as pinned could not compile - repaired by /repo 2231140).
   B  spec -> code: every case is evaluated on the real templates for float / double / padded float; results whose
      expectation is an integer are compared by equality (the driver reports round(x) when |x - round(x)| <= 1e-4);
      code -> spec: rational and law-defined results (inverse, xfmNormal, rcp; orthogonal, frame, lookat, slerp midpoint)
      are recorded scaled by 2^14 and validated by TLC (LinAlgebraValidate); seeded random executions of one real affine
      map object are validated by TLC against the trace specification LinTrace.
 
-Mutations of /repo the check was tried against (each yields a VIOLATION; see the final report of the build):
-  LinearSpace2::adjoint sign, LinearSpace3 quaternion constructor term, QuaternionT(vx,vy,vz) y-largest branch,
-  LinearSpace3::rotate term, xfmNormal without transposed(), lookat cross order, slerp without the short-way flip,
-  frame() handedness, AffineSpace rcp translation sign, yaw/pitch/roll term."""
+Binding demonstration (each applied to a scratch copy of /repo, VERIF_REPO=<copy> bin/check C06 --tier quick; all VIOLATION):
+  LinearSpace2::adjoint sign of one entry; LinearSpace3(quaternion) sign of one term; QuaternionT(vx,vy,vz) y-largest branch
+  (vy.z + vz.y -> vy.z - vz.y: only the y-largest classes fail); LinearSpace3::rotate sign of one sine term; xfmNormal without
+  transposed(); lookat cross(Z, up) -> cross(up, Z); slerp without the short-way flip; frame(N) dy = cross(dx, N);
+  rcp(AffineSpaceT) translation sign; yaw/pitch/roll sign of one term; quaternion product two signs; orthogonal() without the
+  mirror; row1() wrong component; AffineSpaceT operator* (a.p -> b.p).  Benign (exit 0): sin/cos and normalize reordered in rotate.
+  With the one-line fix of AffineSpaceT::rotate(point, quaternion) (/repo 2231140) the probe build succeeds and its cases pass.
+  Trace corruption (one state field / one query result flipped, one event deleted) is rejected by LinTrace at that event."""
 import json, os, random, time
 from concurrent.futures import ThreadPoolExecutor
 from .. import tla, build, adt, adtcheck, funcheck, trace
@@ -41,8 +45,8 @@ LEVEL_NOTE = ("bounded and exact-arithmetic only: matrix entries in -1..1 (2x2 a
               "resolution is 2^-14; 7e-4 for their quadratic laws).  NOT decided: accuracy on general well-conditioned inputs, arbitrary "
               "axes / angles / slerp factors, condition-number-derived tolerances, non-lattice floats, overflow.  lookat's orientation is "
               "the one its definition gives (U = Z x up, V = U x Z: a left-handed triple); orthogonal() is checked as the orthogonal polar "
-              "factor.  AffineSpaceT::rotate(point, quaternion) cannot be instantiated in the unmodified library (compile error): it is "
-              "checked only when the probe build succeeds, otherwise reported as a note.  2D rotate(point, angle) exists for float only.  "
+              "factor.  AffineSpaceT::rotate(point, quaternion) could not be instantiated in the library as pinned (compile error, repaired): it is "
+              "checked when the probe build succeeds, otherwise reported as a note.  2D rotate(point, angle) exists for float only.  "
               "trusted: TLC, the driver's format conversions (round within 1e-4, scale by 2^14), std::sqrt for normalising input axes, g++")
 TECHNIQUE = ("TLA+ functional specification in exact integer arithmetic; laws model-checked by TLC over the complete bounded lattice and the "
              "rotation group TLC computes as a closure; constant-level case enumeration by TLC replayed on the real templates; TLC "
@@ -353,14 +357,30 @@ def run(chk, replay=None):
     variants = ["f", "d", "fa"]
     level = 0 if quick else 1
 
+    # the laws are model-checked while the cases are generated and evaluated (the run fails as a tooling error if they do not
+    # hold, whatever the drivers observed): the model checker is the long pole of both tiers
+    mc_pool = ThreadPoolExecutor(max_workers=1)
+    mc_sub = Sub(chk)
+    mc_future = mc_pool.submit(model_check, mc_sub)
+    try:
+        run_cases(chk, rnd, quick, variants, level)
+    finally:
+        try:
+            mc_future.result()
+        finally:
+            mc_pool.shutdown()
+            mc_sub.merge()
+
+
+def run_cases(chk, rnd, quick, variants, level):
     # phase A
     t0 = time.time()
-    fns = [lambda sub: build_drivers(sub), lambda sub: model_check(sub)] + [(lambda sub, g=g: run_gen(sub, g, level)) for g in GROUPS]
+    fns = [lambda sub: build_drivers(sub)] + [(lambda sub, g=g: run_gen(sub, g, level)) for g in GROUPS]
     outs = parallel(chk, fns, workers=10)
     exe, have_rpq = outs[0]
-    cases = [c for cs in outs[2:] for c in cs]
+    cases = [c for cs in outs[1:] for c in cs]
     chk.cov["rotate_point_quaternion_compiles"] = have_rpq
-    chk.log("laws checked and %d cases generated in %.1fs" % (len(cases), time.time() - t0))
+    chk.log("driver built and %d cases generated in %.1fs" % (len(cases), time.time() - t0))
 
     # vacuity guards: every operation, and every class the statement names, must be present
     ops = {}
